@@ -29,6 +29,7 @@ RULE = ('G-frame DataFrames of 1-4 columns over 35 dtype kinds (signed / '
         'Non-trivial: >=1 row, >=1 non-null cell, >=3 discovered '
         'constraints; distinct by case hash.')
 RULE += ' ' + 'Also: index kinds (default, duplicated labels, one label for all rows, strings, reversed); long multi-line cells of more than 99 character-class runs; after use in memory the discovered constraints must still serialise to the same text.'
+RULE += ' ' + 'Round 7: the constraints file handed over as a pathlib.Path in file-form cases with an even row count; in odd-length frames the latest and earliest instants of datetime64[ns] columns are given nanosecond digits (not whole microseconds).'
 ASSUMPTIONS = ['strings containing NUL are not generated: pandas\' object '
                'hash table conflates them, so unique()/nunique() are wrong '
                'before tdda sees the data']
